@@ -76,6 +76,9 @@ def gen_cases(tier, seed):
         if w is not None and rng.random() < 0.15:
             w[rng.randrange(len(w))] = 0
         cases.append({"kind": "msc", "universe": U, "subsets": subsets, "weights": w})
+    # corpus: an instance whose LP-based optimum comes back as 0.9999999999999999 for a selected subset (found by the thorough tier)
+    cases.append({"kind": "msc", "universe": [0, 1, 2, 3, 4, 5], "subsets": [[1, 5, 3], [5, 4, 1, 3], [0, 4, 1], [4, 0, 5, 1], [1, 2, 0], [5, 2], [2, 3, 4, 5, 0], [0, 4, 1]],
+                  "weights": [2, 6, 8, 8, 4, 8, 6, 4]})
     return cases
 
 
